@@ -46,6 +46,11 @@ type Prefill struct {
 	BulkCol   string   `json:"bulk_col,omitempty"`  // string column that gets BulkLen pseudo-random bytes in every row of the KeepFull blocks (state > 1 MiB)
 	BulkLen   int      `json:"bulk_len,omitempty"`
 	Far       []int    `json:"far,omitempty"` // additional far-out blocks filled and emptied except for the survivors
+	// EnumBulk names an enum column into which EnumBulkN distinct strings are stored before the
+	// history starts (cyclically over the survivors of the first survivor's block, last value
+	// wins): the column's string table then holds more entries than fit 16 bits
+	EnumBulk  string `json:"enum_bulk,omitempty"`
+	EnumBulkN int    `json:"enum_bulk_n,omitempty"`
 }
 
 // Step is one step of a single-client history.
